@@ -79,12 +79,20 @@ CONFIGS = {
     "w3": [([("a1", "addError")], None), ([], 0), ([("c1", "addSuccess")], None)],
     "w2raise": [([("a1", "addUnexpectedSuccess")], None), ([("b1", "addExpectedFailure")], 1)],
     "w1": [([("a1", "addSuccess"), ("a2", "addSkip")], None)],
+    "w2same": [([("a1", "addSuccess"), ("a2", "addFailure")], None), ([("b1", "addSkip")], None)],
+    "w2none": [([("a1", "addSuccess")], None), ([("b1", "addError"), ("b2", "addSuccess")], None)],
     "w1empty": [([], None)],
     "w2x2": [([("a1", "addSuccess"), ("a2", "addFailure")], None), ([("b1", "addSkip"), ("b2", "addError")], None)],
     "w3x1": [([("a1", "addSuccess")], None), ([("b1", "addFailure")], None), ([("c1", "addSkip")], None)],
     "w4": [([("a1", "addSuccess")], None), ([("b1", "addFailure")], None), ([("c1", "addSkip")], None), ([], 0)],
 }
 ROUTES = ["0", "1", None, "3"]
+# harnesses whose workers share a route code (the docstring allows any code, None included)
+ROUTES_OF = {"w2same": ["0", "0"], "w2none": [None, None]}
+
+
+def routes_of(config):
+    return ROUTES_OF.get(config, ROUTES)
 
 
 def make_workers(config):
@@ -164,6 +172,7 @@ def execute(kind, config, chooser, faults, iter_fault=None, interrupt=False):
     r.sched = sched
     r.workers = workers
     r.kind = kind
+    r.config = config
     r.observers = []
     r.iter_fault = iter_fault
     shim = S.ThreadingShim(sched)
@@ -179,7 +188,7 @@ def execute(kind, config, chooser, faults, iter_fault=None, interrupt=False):
         for i, w in enumerate(workers):
             if iter_fault is not None and i == iter_fault:
                 raise IterBoom("make_tests")
-            yield w if kind == "cts" else (w, ROUTES[i])
+            yield w if kind == "cts" else (w, routes_of(config)[i])
         if iter_fault is not None and iter_fault >= len(workers):
             raise IterBoom("make_tests")
 
@@ -281,12 +290,12 @@ def reference(kind, config):
             try:
                 w.run(etsd)
             except WorkerBoom:
-                _broken("broken-runner-'%s'" % ROUTES[i]).run(etsd)
+                _broken("broken-runner-'%s'" % routes_of(config)[i]).run(etsd)
             etsd.stopTestRun()
             evs = []
             for e in s.log:
                 if e[0] == "status":
-                    evs.append(_norm_event(e[1], ROUTES[i]))
+                    evs.append(_norm_event(e[1], routes_of(config)[i]))
             out.append(evs)
     _REF_CACHE[key] = out
     return out
@@ -475,6 +484,8 @@ def _cmp(e):
 def _check_csts_log(r, ref, log, aborted_by, nfaults):
     problems = []
     per_route = {}
+    routes = routes_of(r.config)
+    shared_routes = r.config in ROUTES_OF
     for e in log:
         if e[0] != "status":
             problems.append(("extra", "worker %s forwarded to the caller's result" % e[0]))
@@ -484,9 +495,15 @@ def _check_csts_log(r, ref, log, aborted_by, nfaults):
             problems.append(("caller-thread", "status() was called on the caller's result from worker task %d" % tid))
         if kw.get("timestamp") is None:
             problems.append(("timestamp", "event without timestamp reached the result: %r" % (kw,)))
-        per_route.setdefault(kw.get("route_code"), []).append(_norm_event(kw, set_route=False))
+        key = kw.get("route_code")
+        if shared_routes:
+            # workers share a route code: tell them apart by their (disjoint) test ids
+            key = (key, (kw.get("test_id") or "?")[0])
+        per_route.setdefault(key, []).append(_norm_event(kw, set_route=False))
     for i, evs in enumerate(ref):
-        route = ROUTES[i]
+        route = routes[i]
+        if shared_routes:
+            route = (route, "abcd"[i])
         got = collapse_tb(per_route.pop(route, []))
         evs = collapse_tb(evs)
         if aborted_by is None:
@@ -519,6 +536,10 @@ def plan(tier):
             out.append((kind, "w2raise", (2, 0), None, False))
             out.append((kind, "w1", (2, 1), None, False))
             out.append((kind, "w1empty", (99, 1), None, False))
+            if kind == "csts":
+                out.append((kind, "w2same", (2, 0), None, False))
+                out.append((kind, "w2none", (2, 0), None, False))
+                out.append((kind, "w2same", (1, 1), None, False))
             # aborts: make_tests failing after k sub-suites, interrupt at queue.get
             out.append((kind, "w2", (2, 0), 0, False))
             out.append((kind, "w2", (2, 0), 1, False))
